@@ -66,6 +66,17 @@ CHECKS = {
         note="Failure points are sqlite statement/commit failures (not process crashes); depth and state caps are reported in the evidence.",
         design_ref="DESIGN.md section 3 C14",
     ),
+    "C01": dict(
+        engine="S+N",
+        technique="exhaustive enumeration of value trees x serializers x configurations x positions through the real Proxy/Daemon pair over an in-memory transport; position-differential oracle",
+        text="Every value tree up to 3 (quick) / 4 (thorough) nodes over 32 lossless-core atoms and 10 extended atoms with list/dict/tuple/set/frozenset/int-key containers, for "
+             "4 serializers x compression x annotations, is sent as positional argument, keyword argument, result, batch result, streamed item, attribute write and "
+             "attribute read through the real client and daemon code. The result position defines the serializer's mapping M; every other position must deliver M(v) "
+             "(or all fail), M must be deterministic and idempotent, and lossless-core values must arrive exactly (type-strict equality incl. nan and signed zero); "
+             "serializer-level loadsCall(dumpsCall()) vs loads(dumps()) pairs are compared on the same trees.",
+        note="Transport is faithful in-memory delivery (fragmentation is C06/C17's business); values outside the enumerated atoms/tree sizes are not covered.",
+        design_ref="DESIGN.md section 3 C01",
+    ),
 }
 
 NOT_YET = {}
